@@ -141,7 +141,9 @@ func init() {
 				return strings.HasSuffix(t, ".Accumulator") && (s.pkg.PkgPath == registerPkg || s.pkg.PkgPath == reporterPkg)
 			})
 			ruleTemplates(c, "C02-R4", "", "")
-			ruleConstFormats(c, "C02-R7", func(fn *ssa.Function) bool { return inPkgs(fn, registerPkg, reporterPkg, core.CmdPath+"/internal/summary") })
+			ruleConstFormats(c, "C02-R7", func(fn *ssa.Function) bool {
+				return inPkgs(fn, registerPkg, reporterPkg, core.CmdPath+"/internal/summary")
+			})
 			ruleTotalsGates(c, "C02-R8")
 			ruleC06R1(c) // "every selected day": the interval predicate is inclusive at both ends for equal instants
 			ruleReporterDiscipline(c, "C02-R6", registerPkg, core.CmdPath+"/internal/summary")
